@@ -385,8 +385,9 @@ class Engine:
         if self.path_wall_s:
             def _alarm(signum, frame):
                 raise PathTimeout()
-            old = signal.signal(signal.SIGALRM, _alarm)
-            signal.setitimer(signal.ITIMER_REAL, self.path_wall_s)
+            # CPU time of this process, not wall time: a loaded machine must not look like a hang
+            old = signal.signal(signal.SIGPROF, _alarm)
+            signal.setitimer(signal.ITIMER_PROF, self.path_wall_s)
         try:
             fn(self)
         except Infeasible:
@@ -395,8 +396,8 @@ class Engine:
             status = "timeout"
         finally:
             if self.path_wall_s:
-                signal.setitimer(signal.ITIMER_REAL, 0)
-                signal.signal(signal.SIGALRM, old)
+                signal.setitimer(signal.ITIMER_PROF, 0)
+                signal.signal(signal.SIGPROF, old)
         self.n_paths += 1
         self.n_decisions += len(self.taken)
         return status, self.alts
